@@ -136,13 +136,13 @@ Proof.
       rewrite E. split; [constructor|]. intros t. rewrite Gr. simpl. intuition lia.
 Qed.
 
-Lemma init_inv nt0 ng0 : (0 < nt0)%nat -> (0 < ng0)%nat -> InvSt (init nt0 ng0).
+Lemma init_inv hold nt0 ng0 : (0 < nt0)%nat -> (0 < ng0)%nat -> InvSt (init_h hold nt0 ng0).
 Proof. intros. split; simpl; apply empty_half_inv; auto. Qed.
 
 (* membership / counter invariant for ALL op lists *)
-Theorem membership_inv : forall nt0 ng0 ops s, (0 < nt0)%nat -> (0 < ng0)%nat ->
-  run (init nt0 ng0) ops = Ok s -> InvL Up (s_up s) /\ InvL Dn (s_dn s).
-Proof. intros nt0 ng0 ops s Hn Hg R. exact (run_inv ops _ _ (init_inv nt0 ng0 Hn Hg) R). Qed.
+Theorem membership_inv : forall hold nt0 ng0 ops s, (0 < nt0)%nat -> (0 < ng0)%nat ->
+  run (init_h hold nt0 ng0) ops = Ok s -> InvL Up (s_up s) /\ InvL Dn (s_dn s).
+Proof. intros hold nt0 ng0 ops s Hn Hg R. exact (run_inv ops _ _ (init_inv hold nt0 ng0 Hn Hg) R). Qed.
 
 (* zero_on_close: once every connection is closed every list is empty and every slot counter is 0 *)
 Theorem zero_on_close_half : forall d h, InvL d h -> (forall c, (c < nc h)%nat -> cs_a (getcs h c) = false) ->
@@ -168,14 +168,14 @@ Proof.
     rewrite (Z1 e_u Eu), (Z1 e_q Eq). auto.
 Qed.
 
-Theorem zero_on_close : forall nt0 ng0 ops s, (0 < nt0)%nat -> (0 < ng0)%nat ->
-  run (init nt0 ng0) ops = Ok s ->
+Theorem zero_on_close : forall hold nt0 ng0 ops s, (0 < nt0)%nat -> (0 < ng0)%nat ->
+  run (init_h hold nt0 ng0) ops = Ok s ->
   (forall c, cs_a (getcs (s_up s) c) = false) -> (forall c, cs_a (getcs (s_dn s) c) = false) ->
   (forall t, (t < nt (s_up s))%nat -> e_q (getent (s_up s) t) = [] /\ e_u (getent (s_up s) t) = [] /\ gettn (s_up s) t = 0) /\
   (forall g, (g < ng (s_up s))%nat -> q_cu (getq (s_up s) g) = 0 /\ q_cq (getq (s_up s) g) = 0) /\
   (forall t, (t < nt (s_dn s))%nat -> e_q (getent (s_dn s) t) = [] /\ e_u (getent (s_dn s) t) = [] /\ gettn (s_dn s) t = 0) /\
   (forall g, (g < ng (s_dn s))%nat -> q_cu (getq (s_dn s) g) = 0 /\ q_cq (getq (s_dn s) g) = 0).
-Proof. intros nt0 ng0 ops s Hn Hg R Du Dd. destruct (membership_inv nt0 ng0 ops s Hn Hg R) as [Iu Id].
+Proof. intros hold nt0 ng0 ops s Hn Hg R Du Dd. destruct (membership_inv hold nt0 ng0 ops s Hn Hg R) as [Iu Id].
   destruct (zero_on_close_half Up _ Iu (fun c _ => Du c)) as [A B].
   destruct (zero_on_close_half Dn _ Id (fun c _ => Dd c)) as [C E]. auto. Qed.
 
